@@ -1,6 +1,11 @@
 use crate::config::WindowType;
 use std::collections::VecDeque;
+#[cfg(feature = "verif-hooks")]
+use std::sync::Arc;
+#[cfg(not(feature = "verif-hooks"))]
 use std::sync::{Arc, Mutex};
+#[cfg(feature = "verif-hooks")]
+use tower_resilience_core::verif::sync::Mutex;
 use std::time::{Duration, Instant};
 use tokio::time::sleep;
 
